@@ -148,6 +148,20 @@ def audit(prop, extra_modules=()):
     return {"theorems": res, "problems": problems}
 
 
+def _big_stack():
+    """the models are structurally recursive over lists (grids of 10^5 cells): give the driver a large stack"""
+    import resource
+
+    try:
+        resource.setrlimit(resource.RLIMIT_STACK, (resource.RLIM_INFINITY, resource.RLIM_INFINITY))
+    except (ValueError, OSError):
+        try:
+            soft, hard = resource.getrlimit(resource.RLIMIT_STACK)
+            resource.setrlimit(resource.RLIMIT_STACK, (hard, hard))
+        except (ValueError, OSError):
+            pass
+
+
 class Driver:
     """Batch interface to the compiled model driver."""
 
@@ -159,9 +173,10 @@ class Driver:
     def run(self, lines):
         """lines: list of token lists or strings (without the RUN prefix handled by caller)."""
         text = "\n".join(l if isinstance(l, str) else " ".join(l) for l in lines) + "\n"
-        p = subprocess.run([DRIVER], input=text, capture_output=True, text=True, timeout=3000)
+        p = subprocess.run([DRIVER], input=text, capture_output=True, text=True, timeout=3000,
+                           preexec_fn=_big_stack)
         if p.returncode != 0:
-            raise MachineryError("driver crashed: " + p.stderr[-500:])
+            raise MachineryError(f"driver crashed (exit {p.returncode}): " + p.stderr[-500:])
         self.n_lines += len(lines)
         return p.stdout.splitlines()
 
